@@ -483,7 +483,7 @@ void harness(void) { int i = 0; ROWS(X) }
 
 
 def parity():
-    wd = os.path.join(WORK, "_parity")
+    wd = os.path.join(WORK, "_parity_%d" % os.getpid())
     shutil.rmtree(wd, ignore_errors=True)
     os.makedirs(wd)
     open(os.path.join(wd, "parity.c"), "w").write(PARITY_SRC)
@@ -499,6 +499,7 @@ def parity():
     if rc != 0:
         bad = [l for l in (txt or "").splitlines() if "FAILURE" in l]
         raise Infra("layout parity broken between gcc and goto-cc: " + "; ".join(bad)[:800])
+    shutil.rmtree(wd, ignore_errors=True)
     return len(vals)
 
 
@@ -627,7 +628,6 @@ def check_property(pid, tier, only_unit=None, keep=False, no_canary=False):
         pid, tier, len(unit_ev), sum(e["cases"] for e in unit_ev.values()), di, ob, bdi, bob, len(seen), len(violations), len(infra), time.time() - t0))
     if not keep:
         shutil.rmtree(os.path.join(WORK, pid), ignore_errors=True)
-        shutil.rmtree(os.path.join(WORK, "_parity"), ignore_errors=True)
     if violations:
         return 1
     if infra:
@@ -651,7 +651,7 @@ def replay_file(path):
         print("no concrete input recorded (no-failing-input-found); verifier trace:")
         print("\n".join(rec["verifier_trace"][-60:]))
         return 0
-    wd = os.path.join(WORK, "_replay")
+    wd = os.path.join(WORK, "_replay_%d" % os.getpid())
     os.makedirs(wd, exist_ok=True)
     nat = native_replay(u, case, rec.get("tier", "quick"), rec["input_hex"], wd)
     print(nat.get("cmd", ""))
